@@ -135,6 +135,7 @@ func solveAll(obls []*Obligation, timeout time.Duration) {
 			sem <- struct{}{}
 			defer func() { <-sem }()
 			facts := append(append([]*Term{}, extra...), o.Facts...)
+			facts = append(facts, globalFactsFor(append(append([]*Term{}, o.Facts...), o.Goal))...)
 			if !o.Cover {
 				facts = append(facts, heapAxiomsFor(append(append([]*Term{}, o.Facts...), o.Goal))...)
 			}
@@ -237,7 +238,7 @@ func runCheck(prop, tier, cfgPath, evDir, knownPath, replayDir string, verbose b
 	if kb, err := os.ReadFile(knownPath); err == nil {
 		json.Unmarshal(kb, &known)
 	}
-	timeout := 40 * time.Second
+	timeout := 30 * time.Second
 	if tier == "thorough" {
 		timeout = 120 * time.Second
 	}
